@@ -12,6 +12,7 @@ from .. import common, e3, callpath, witness, irq
 PRELUDE = r'''
 #include <yorel/yomm2/core.hpp>
 #include <yorel/yomm2/symbols.hpp>
+#include <yorel/yomm2/macros.hpp>
 #include <memory>
 using namespace yorel::yomm2;
 namespace c11 {
@@ -71,6 +72,13 @@ def types_unit(tier):
           "static_assert(std::is_same_v<decltype(&detail::thunk<P, int(virtual_<std::shared_ptr<A>>, Mv, virtual_<const A&>), th::d2, detail::types<std::shared_ptr<E>, Mv, const D2&>>::fn), int (*)(std::shared_ptr<A>, Mv, const A&)>);")
     u.add("method|fptr", "function_pointer_type / next_type of a method is R(*)(remove_virtual<A>...)",
           "static_assert(std::is_same_v<method<void, int(virtual_<A&>, Mv, virtual_ptr<A>, virtual_<std::shared_ptr<A>>)>::function_pointer_type, int (*)(A&, Mv, virtual_ptr<A>, std::shared_ptr<A>)>);")
+    # the functions the declaration macros generate return what the method returns (references stay references)
+    u.raw("namespace mr { YOMM2_DECLARE(A&, ref_ret, (virtual_<A&>, int)); YOMM2_DECLARE(const A&, cref_ret, (virtual_<const A&>)); YOMM2_DECLARE(A&&, rref_ret, (virtual_<A&&>)); "
+          "YOMM2_DECLARE(Mv, val_ret, (virtual_<A&>)); YOMM2_DECLARE(A*, ptr_ret, (virtual_<A*>)); YOMM2_DECLARE(void, void_ret, (virtual_<A&>, Mv&&)); }")
+    for name, ret, call in (("ref_ret", "A&", "mr::ref_ret(lv<A&>(), 1)"), ("cref_ret", "const A&", "mr::cref_ret(lv<const A&>())"), ("rref_ret", "A&&", "mr::rref_ret(lv<A&&>())"),
+                            ("val_ret", "Mv", "mr::val_ret(lv<A&>())"), ("ptr_ret", "A*", "mr::ptr_ret(lv<A*>())"), ("void_ret", "void", "mr::void_ret(lv<A&>(), lv<Mv&&>())")):
+        u.add("macro|return|%s" % name, "the function generated by YOMM2_DECLARE for a method returning %s returns %s (the definition's result passes through unchanged)" % (ret, ret),
+              "static_assert(std::is_same_v<decltype(%s), %s>);" % (call, ret))
     # programs that must compile: one line each
     progs = [
         ("moveonly-last", "int(virtual_<A&>, std::unique_ptr<int>)", "B&, std::unique_ptr<int>", "A& a, std::unique_ptr<int> p", "a, std::move(p)"),
@@ -83,6 +91,10 @@ def types_unit(tier):
         ("vsptr-virtualbase", "int(const virtual_ptr<std::shared_ptr<A>>&, virtual_ptr<std::shared_ptr<A>>)", "const virtual_ptr<std::shared_ptr<F>>&, virtual_ptr<std::shared_ptr<D2>>", "const virtual_ptr<std::shared_ptr<A>>& a, virtual_ptr<std::shared_ptr<A>> b", "a, b"),
         ("shared-virtualbase", "int(virtual_<std::shared_ptr<A>>, virtual_<const std::shared_ptr<A>&>)", "std::shared_ptr<VB>, const std::shared_ptr<F>&", "std::shared_ptr<A> a, const std::shared_ptr<A>& b", "a, b"),
         ("rvalue-nonvirtual", "int(Mv&&, virtual_<A*>)", "Mv&&, D2*", "Mv&& m, A* a", "std::move(m), a"),
+        # definitions written for the method's own (root) classes, with identical and with convertible non-virtual parameters
+        ("root-definition", "int(virtual_<A&>, int)", "A&, int", "A& a, int i", "a, i"),
+        ("root-definition-conv", "int(virtual_<A&>, int)", "A&, double", "A& a, int i", "a, i"),
+        ("root-definition-secondbase", "int(virtual_<D2&>, int)", "A&, int", "D2& a, int i", "a, i"),
     ]
     for n, (name, sig, dparams, cparams, cargs) in enumerate(progs):
         u.add("must-compile|%s" % name, "a method %s with definition (%s) and a forwarding caller compiles" % (sig, dparams),
